@@ -67,6 +67,11 @@ VALUE_CLASSES = {
                             datetime.datetime(2020, 1, 2, 3, 4, 5, tzinfo=TZ(TD(hours=-12))),
                             datetime.datetime(2020, 1, 2, 3, 4, 5, tzinfo=TZ(TD(minutes=-30), 'HALF'))],
     'datetime_tzname_none': [datetime.datetime(2020, 1, 2, 3, 4, 5, tzinfo=NoNameTZ())],
+    # zones that share their NAME and differ in their offset (CST: -06:00 / +08:00; IST: +05:30 / +01:00)
+    'datetime_same_tzname_other_offset': [datetime.datetime(2024, 1, 15, 9, 0, 0, tzinfo=TZ(TD(hours=-6), 'CST')),
+                                          datetime.datetime(2024, 1, 15, 9, 0, 0, tzinfo=TZ(TD(hours=8), 'CST')),
+                                          datetime.datetime(2024, 7, 1, 9, 30, 0, tzinfo=TZ(TD(hours=5, minutes=30), 'IST')),
+                                          datetime.datetime(2024, 7, 1, 9, 30, 0, tzinfo=TZ(TD(hours=1), 'IST'))],
     # tuple-valued cells: what set_type(type='yearmonth' / 'geopoint') produces, or a plain tuple in an `any` field
     'tuple': [(2020, 5), ('a', 'b'), (decimal.Decimal('34.5'), decimal.Decimal('-12.25'))],
     'subsecond_offset': [datetime.datetime(2020, 1, 2, 3, 4, 5, tzinfo=TZ(TD(minutes=19, seconds=32, microseconds=130000))),
@@ -85,7 +90,8 @@ VALUE_CLASSES = {
     'null': [None],
 }
 COMMON = ['decimal', 'bigint', 'float', 'text', 'date', 'time', 'datetime_naive', 'datetime_utc',
-          'datetime_pos_offset', 'datetime_neg_offset', 'duration', 'nested', 'set', 'null', 'subsecond']
+          'datetime_pos_offset', 'datetime_neg_offset', 'duration', 'nested', 'set', 'null', 'subsecond',
+          'datetime_same_tzname_other_offset']
 RARE = ['datetime_tzname_none', 'tag_like_object', 'subsecond_offset', 'tuple']
 
 
@@ -307,6 +313,12 @@ def run_case(case):
     if nested:
         cov['history']['checkpoint_in_nested_flow/' + nested] = 1
     early_stop = boot.rng(case['seed'], 'C07', 'early', case['idx']).random() < 0.2
+    # a step after the last checkpoint that passes the first resource on, never touches the second and goes on with the third
+    skip_mid = nres == 3 and boot.rng(case['seed'], 'C07', 'skipmid', case['idx']).random() < 0.5
+    cfg['later_step_never_iterates_the_middle_resource'] = skip_mid
+    if skip_mid:
+        early_stop = False
+        cov['history']['later_step_never_iterates_the_middle_resource'] = 1
     cfg['early_stopping_step_after_last_checkpoint'] = early_stop
     if early_stop:
         cov['history']['early_stopping_step_after_last_checkpoint'] = 1
@@ -385,6 +397,13 @@ def run_case(case):
                 return itertools.islice(rows, 2)
             steps.append(first_two)
 
+        if skip_mid:
+            def skip_middle(package):
+                yield package.pkg
+                for i_, res_ in enumerate(package):
+                    yield iter(()) if i_ == 1 else res_
+            steps.append(skip_middle)
+
         def order_probe(package):
             # what a step placed after the last checkpoint can see of the ORDER of row keys / object-cell keys
             yield package.pkg
@@ -448,6 +467,8 @@ def run_case(case):
         if early_stop:
             # the checkpoints still capture everything; the segment after the last checkpoint sees what was asked for
             want['seg%d' % ncp] = sum(min(2, len(t)) for t in tables)
+        if skip_mid:
+            want['seg%d' % ncp] = total_rows - len(tables[1])
         if cnt != want:
             add('upstream_executed', 'run %d with checkpoints existing=%r: counters %r expected %r'
                 % (run_no, exists, cnt, want), 'counters')
